@@ -10,5 +10,5 @@ Report ==
   IF l > Len(Tr) THEN PrintT("VERDICT " \o ToJson([done |-> Len(Tr)]))
   ELSE LET e == Tr[l] IN
        Transparent(e.prog, e.bpa, e.big, e.obs) \/
-       PrintT("VERDICT " \o ToJson([id |-> e.id, why |-> Why(Expand(e.prog), e.bpa, e.big, e.obs)]))
+       PrintT("VERDICT " \o ToJson([id |-> e.id, why |-> IF Redef(e.prog) THEN "a name defined twice was accepted" ELSE Why(Expand(e.prog), e.bpa, e.big, e.obs)]))
 =============================================================================
